@@ -406,3 +406,10 @@ def check(run):
     r09d(run)
     r09e(run)
     r09f(run)
+    # shared with C10: each argument is tried in a layer of its own only if enter() really opens one
+    from . import c10
+    run.rules_run += ["R10g", "R10c"]
+    c10.r10g(run)
+    # the ~ and ^ branches raise their violation inside the try that swallows argument failures: only the entry that
+    # handle_error records before raising makes the final raise_error() reject
+    c10.r10c(run)
